@@ -10,7 +10,9 @@ Inductive ecls := Fin | NaN | PInf | NInf.                      (* class of one 
 Definition is_fin (e : ecls) : bool := match e with Fin => true | _ => false end.
 
 Inductive container := CNdarray | CList | CTuple.
-Inductive dkind := DFloat | DInt | DBool.                       (* numpy dtype kind after np.array(..) *)
+(* numpy dtype kind after np.array(..).  DObject: object array of Python numbers (arithmetic works, check_array casts it);
+   DStr: numeric strings, or objects with None inside (float cast works: 'inf' -> inf, None -> nan; arithmetic: TypeError) *)
+Inductive dkind := DFloat | DInt | DBool | DObject | DStr.
 
 Record desc := mk_desc {
   d_cont : container;
@@ -62,6 +64,7 @@ Inductive action :=
                                                    still the constructor string and the domain test dies with AttributeError) *)
 | CheckX (nf cats : bool) | CheckArray | CheckLen | CheckXy
 | NeedsArray (what : string)                    (* .ravel() / .astype() / .shape read off the argument as passed *)
+| NeedsNumeric (what : string)                  (* arithmetic on the argument before any cast to float *)
 | Use (what : string)                           (* any other read of the argument: terminal *)
 | IfUnfitted (body : list action)               (* if not self._is_fitted: body *)
 | IfFitted (body : list action)
@@ -69,7 +72,8 @@ Inductive action :=
 | TryVE (body : list action).                   (* try: body  except ValueError: continue *)
 
 (* Crashed: an ndarray attribute read off a list / tuple argument (AttributeError of the *container*, not the fitted guard) *)
-Inductive outcome := RaisedVE | RaisedAE | Used (what : string) | Crashed (what : string) | Finished.
+(* CrashedTE: arithmetic on string / None data (TypeError) *)
+Inductive outcome := RaisedVE | RaisedAE | Used (what : string) | Crashed (what : string) | CrashedTE (what : string) | Finished.
 
 Definition is_array (c : container) : bool := match c with CNdarray => true | _ => false end.
 
@@ -89,6 +93,7 @@ Fixpoint run_action (fitted skip : bool) (a : adesc) (act : action) {struct act}
   | CheckArray => if a_check_array false a then Some RaisedVE else None
   | CheckLen | CheckXy => if a_check_len a then Some RaisedVE else None
   | NeedsArray w => if is_array (a_cont a) then None else Some (Crashed w)
+  | NeedsNumeric w => match a_dt a with DStr => Some (CrashedTE w) | _ => None end
   | Use w => Some (Used w)
   | IfUnfitted body => if fitted then None else run_list body
   | IfFitted body => if fitted then run_list body else None
@@ -165,7 +170,7 @@ Definition valid (d : desc) : Prop :=
 (* ---------------------------------------------------------------- finite enumeration of abstract descriptors *)
 Definition all_bool := [true; false].
 Definition all_cont := [CNdarray; CList; CTuple].
-Definition all_dt := [DFloat; DInt; DBool].
+Definition all_dt := [DFloat; DInt; DBool; DObject; DStr].
 Definition all_adesc : list adesc :=
   flat_map (fun c => flat_map (fun t => flat_map (fun b1 => flat_map (fun b2 => flat_map (fun b3 =>
   flat_map (fun b4 => flat_map (fun b5 => map (fun b6 => mk_adesc c t b1 b2 b3 b4 b5 b6) all_bool) all_bool) all_bool)
@@ -175,6 +180,8 @@ Definition cont_eqb (a b : container) : bool :=
   match a, b with CNdarray, CNdarray | CList, CList | CTuple, CTuple => true | _, _ => false end.
 Definition argk_eqb (a b : argk) : bool :=
   match a, b with AX, AX | AY, AY | AW, AW | AE, AE | AXs, AXs => true | _, _ => false end.
+Definition dkind_eqb (a b : dkind) : bool :=
+  match a, b with DFloat, DFloat | DInt, DInt | DBool, DBool | DObject, DObject | DStr, DStr => true | _, _ => false end.
 Definition ckind_eqb (a b : ckind) : bool :=
   match a, b with KNonFinite, KNonFinite | KLen, KLen | KWidth, KWidth | KDomain, KDomain | KCat, KCat => true
   | _, _ => false end.
